@@ -248,11 +248,28 @@ def main(tier):
         else:
             rep.notes.append('known finding %s no longer reproduces natively' % f['id'])
     rep.extra['known_regions_seen_symbolically'] = {'sticky': sticky_seen, 'parity': parity_seen}
-    rep.validated, rep.validation_mismatches = validate(prog, rng, 40 if tier == 'quick' else 400)
+    rep.validated, rep.validation_mismatches = validate(prog, rng, 150 if tier == 'quick' else 1500, rep)
     return rep.finish()
 
 
-def validate(prog, rng, n):
+def in_known_region(x, scale, p):
+    """python replica of the two known-finding regions (parity, sticky) for a concrete non-negative input"""
+    import math
+    nd = len(str(x))
+    w = 2 * (p + 5)
+    if nd > w and nd % 2 == 1:
+        return True
+    e = max(w - nd, 0) + ((nd - scale) % 2)
+    N = x * 10 ** e
+    r = math.isqrt(N)
+    k = len(str(r)) - p
+    if k <= 0 or r * r == N:
+        return False
+    rem = r % 10 ** k
+    return rem == 0 or 2 * rem == 10 ** k
+
+
+def validate(prog, rng, n, rep=None):
     """concrete inputs through the MIR executor (with the real integer sqrt computed in python) and the native crate"""
     cases = []
     for i in range(n):
@@ -266,6 +283,13 @@ def validate(prog, rng, n):
         S.DIGIT_BOUND[0] = 200
         S.BITS_MODE[:] = ['uf', 0]
         for (x, sc, p, mode), nat in zip(cases, outs):
+            if rep is not None and not in_known_region(x, sc, p) and nat != 'None' and not nat.startswith('PANIC'):
+                ri, rs = H.parse_dec(nat)
+                ei, es = exact_sqrt_rounded(x, sc, p, mode)
+                M = max(rs, es)
+                if ri * 10 ** (M - rs) != ei * 10 ** (M - es):
+                    H.probe_violation(rep, PROP, 'native sqrt(%d@%d, p=%d, %s) = %s, exact %d@%d' % (x, sc, p, mode, nat, ei, es), {'entry': 'sqrt_with_context', 'nd': len(str(x)), 'scale': sc, 'p': p, 'mode': mode, 'sign': 1}, {'n': x}, nat)
+                    continue
             m = E.Machine(prog, (), [], E.Stats(), loop_bound=6000)
             m.root_facts = []
             try:
